@@ -8,7 +8,8 @@ Steps (in a scratch git worktree of /repo outside /repo and /verif, removed afte
 """
 import sys, os, subprocess, json, shutil, re, tempfile
 prop=sys.argv[1]; xs=sys.argv[2:] or ['A','B']
-src='/tmp/seed/%s.out'%prop
+src='%s/%s.out'%(os.environ.get('SEEDROOT','/tmp/seed'),prop)
+rnd=os.environ.get('ROUND','')  # later rounds: one agent seeds several properties; meta.json[X]['property'] names the target
 env=dict(os.environ, GOFLAGS='-mod=mod', GOPROXY='off')
 def sh(cmd, cwd, timeout=1200):
     r=subprocess.run(cmd, shell=True, cwd=cwd, env=env, capture_output=True, text=True, timeout=timeout)
@@ -32,7 +33,7 @@ for x in xs:
         dst=os.path.join(wt, '' if sub=='.' else sub, 'zz_seed_demo_test.go'); shutil.copy(demo,dst)
         names=re.findall(r'^func (Test\w+)\(', open(demo).read(), re.M)
         runpat='^(%s)$'%'|'.join(names)
-        race = ' -race' if 'race' in json.dumps(meta_all.get(x,meta_all)).lower() and 'not required' not in json.dumps(meta_all.get(x,meta_all)).lower() and False else ''
+        race = ' -race' if isinstance(meta_all,dict) and isinstance(meta_all.get(x),dict) and meta_all[x].get('race_detector_required') else ''
         cmd="go test -vet=off -count=1%s -run '%s' %s"%(race,runpat,sub)
         rc1,out1=sh(cmd, wt); ran.append(cmd+' (with change) -> %d'%rc1)
         sh('git checkout -- .', wt)
@@ -42,7 +43,9 @@ for x in xs:
         if not ok:
             print(out1[-600:] if rc1==0 else '', out2[-600:] if rc2!=0 else '', out[-400:] if not suite_ok else '')
             continue
-        d='/verif/seeded/%s-%s'%(prop,x); os.makedirs(d,exist_ok=True)
+        tprop=(meta_all.get(x) or {}).get('property',prop) if isinstance(meta_all,dict) and isinstance(meta_all.get(x),dict) else prop
+        d='/verif/seeded/%s-%s'%(prop,x) if not rnd else '/verif/seeded/%s-%s-%s%s'%(tprop,rnd,prop,x)
+        os.makedirs(d,exist_ok=True)
         shutil.copy(patch,os.path.join(d,'patch.diff')); shutil.copy(demo,os.path.join(d,'demo_test.go'))
         m=meta_all.get(x) if isinstance(meta_all.get(x),dict) else None
         if m is None:
@@ -51,7 +54,7 @@ for x in xs:
             if m is None and isinstance(meta_all,list):
                 m=meta_all[xs.index(x)] if len(meta_all)>xs.index(x) else {}
         m=dict(m or {})
-        meta={'property':prop,'origin':'independent sub-agent given only the property text and a scratch worktree',
+        meta={'property':tprop,'round':rnd or 'r1','origin':'independent sub-agent given only the property text and a scratch worktree',
               'summary':m.get('summary'),'mechanism':m.get('mechanism'),'needs_to_manifest':m.get('needs_to_manifest'),
               'demo_tests':names,'confirmed_by_me':{'commands':ran,'suite_passes_with_change':suite_ok,'demo_fails_with_change':rc1!=0,'demo_passes_without_change':rc2==0}}
         json.dump(meta,open(os.path.join(d,'meta.json'),'w'),indent=1)
